@@ -164,4 +164,20 @@ def upgrade (own : Key) (dialed : Option Key) (conn nodeInfo : Key) : UpVerdict 
   else if own = nodeInfo then .self
   else .ok
 
+/-- how the link came about: accepted (`dialedAddr == nil`) or dialed, the dialed `NetAddress`
+carrying an ID or not (`NewNetAddressIPPort` builds ID-less addresses) -/
+inductive Dialed
+  | inbound
+  | outbound (id : Option Key)
+  deriving DecidableEq, Repr
+
+/-- `transport.upgrade`'s identity decisions with the direction explicit. When dialing, the ID of
+the key that completed the handshake is compared with `dialedAddr.ID` unconditionally — an empty
+dialed ID equals no key's ID, so an ID-less address never yields a peer. -/
+def upgradeD (own : Key) (d : Dialed) (conn nodeInfo : Key) : UpVerdict :=
+  if (match d with | .outbound id => decide (id ≠ some conn) | .inbound => false) = true then .dialedMismatch
+  else if conn ≠ nodeInfo then .nodeInfoMismatch
+  else if own = nodeInfo then .self
+  else .ok
+
 end Tmv.Sts
